@@ -1996,11 +1996,12 @@ class GroupBy:
 
         col_names = self._col_names_from_value_names(value_names)
 
-        result = (
-            pd.DataFrame(dict(zip(col_names, value_list)), copy=False)
-            .iloc[ilocs]
-            .set_index(out_index)
-        )
+        frame = pd.DataFrame(dict(zip(col_names, value_list)), copy=False)
+        result = frame.iloc[ilocs]
+        if len(ilocs) == len(frame):
+            # pandas answers an identity take with a lazy copy that still shares the caller's buffers
+            result = result.copy()
+        result = result.set_index(out_index)
         result = self._maybe_squeeze_to_1d(
             result, values=values, n_values=len(value_names)
         )
